@@ -7,7 +7,7 @@ use std::collections::hash_map::DefaultHasher;
 use std::hash::{Hash, Hasher};
 use std::time::Instant;
 
-pub const RULE: &str = "case = (encoding, predicate): each predicate is recomputed from the behaviour of the same build over a finite, completely enumerated space - all byte strings of length <= 2 through the decoder (UTF-16 output length, ASCII bytes -> ASCII scalars) and every scalar value through the encoder (unmappable?, one byte per mappable character?, ASCII -> same single byte; ASCII bytes / characters next to every kind of non-ASCII sequence / character of the encoding in the same buffer; for can_encode_everything every scalar also from UTF-16 into a destination of exactly the queried size) - and compared with is_ascii_compatible(), is_single_byte(), can_encode_everything(); output_encoding() == new_encoder().encoding() == the encoding encode() reports, idempotent; == and Hash agree with instance identity on all 40 x 40 pairs; for_label(name()) is the same instance. Non-trivial = every (encoding, predicate, witness sweep) counts; evaluations counts the conversions executed. The space is finite and enumerated completely.";
+pub const RULE: &str = "case = (encoding, predicate): each predicate is recomputed from the behaviour of the same build over a finite, completely enumerated space - all byte strings of length <= 2 through the decoder (UTF-16 output length, ASCII bytes -> ASCII scalars) and every scalar value through the encoder (unmappable?, one byte per mappable character?, ASCII -> same single byte; ASCII bytes / characters next to every kind of non-ASCII sequence / character of the encoding in the same buffer; for can_encode_everything every scalar also from UTF-16 into a destination of exactly the queried size) - and compared with is_ascii_compatible(), is_single_byte(), can_encode_everything(); output_encoding() == new_encoder().encoding() == the encoding encode() reports, idempotent; == and Hash agree with instance identity on all 40 x 40 pairs; for_label(name()) is the same instance. Non-trivial = every (encoding, predicate, witness sweep) counts; evaluations counts the conversions executed. The short-string space is finite and enumerated completely; in addition the ASCII / single-byte claims are re-measured on longer inputs (ASCII run of 0..=70 + each atom / alphabet character + an ASCII tail of digits and trail-range letters) pushed through output buffers shorter than the input, against the reference model of the Standard, because 'every byte string' includes those and the fast paths only engage there.";
 
 fn hash_of(e: &'static Encoding) -> u64 {
     let mut h = DefaultHasher::new();
@@ -163,6 +163,66 @@ fn check_encoding(enc: &'static Encoding, st: &mut Stats) -> Option<String> {
             return Some(format!("is_ascii_compatible() = true but {}", w));
         }
     }
+    // ---- the same two claims on long inputs through output buffers shorter than the input (the
+    // caller loop re-pushes after OutputFull): ASCII bytes that are not part of a multi-byte
+    // sequence still decode to themselves (the reference model says which those are), a
+    // single-byte encoding still yields one UTF-16 unit per byte, ASCII text still encodes to itself
+    if enc.is_ascii_compatible() || enc.is_single_byte() {
+        use crate::drive_dec::{BomMode, DecDriver, DecHistory, Sink};
+        let mut drv = DecDriver::new();
+        let atoms = crate::hist::atoms(algo);
+        let digits: &[u8] = b"0123456789@AZ[az{~ \x00\x7F";
+        for a in &atoms {
+            for l in (0..=70usize).step_by(if a.iter().any(|b| *b >= 0x80) { 1 } else { 9 }) {
+                let mut v: Vec<u8> = (0..l).map(|i| b' ' + (i % 90) as u8).collect();
+                v.extend_from_slice(a);
+                v.extend_from_slice(digits);
+                let want: Vec<u32> = crate::model_dec::with_replacement(&crate::model_dec::decode(algo, &v));
+                for (sink, caps) in [(Sink::Utf8, [4usize, 5, 7, 16, 17, 64]), (Sink::Utf16, [2usize, 3, 7, 16, 17, 64])] {
+                    for cap in caps {
+                        st.evals += 1;
+                        let mut h = DecHistory::simple(enc, BomMode::None, sink, true, &v);
+                        h.caps = vec![cap];
+                        let o = drv.run(&h);
+                        let got = if o.completed { o.scalars(sink) } else { None };
+                        if got.as_ref() != Some(&want) {
+                            let what = format!("decoding {} through a {}-unit {} buffer gives {:X?}, the Standard {:X?}", fw::hex(&v), cap, sink.name(), got, want);
+                            if enc.is_single_byte() && got.as_ref().map(|g| g.len()) != Some(v.len()) {
+                                return Some(format!("is_single_byte() = true but {} bytes do not decode to {} code units: {}", v.len(), v.len(), what));
+                            }
+                            return Some(format!("is_ascii_compatible() = {} / is_single_byte() = {} but ASCII bytes around the sequence {} do not survive: {}", enc.is_ascii_compatible(), enc.is_single_byte(), fw::hex(a), what));
+                        }
+                    }
+                }
+            }
+        }
+        if enc.is_ascii_compatible() {
+            let mut edrv = crate::drive_enc::EncDriver::new();
+            let ealgo = crate::model_enc::enc_algo_for(enc);
+            for x in crate::hist_enc::alphabet(enc) {
+                if x < 0x80 || crate::drive_enc::is_sur(x) {
+                    continue;
+                }
+                for l in 0..=70usize {
+                    let mut text: Vec<u32> = (0..l).map(|i| 0x20 + (i % 90) as u32).collect();
+                    text.push(x);
+                    text.extend(digits.iter().map(|b| *b as u32));
+                    let want = crate::model_enc::encode(ealgo, &text, true).bytes;
+                    for src in [crate::drive_enc::Src::Utf8, crate::drive_enc::Src::Utf16] {
+                        for cap in [14usize, 15, 17, 24, 64] {
+                            st.evals += 1;
+                            let mut h = crate::drive_enc::EncHistory::simple(enc, src, true, &text);
+                            h.caps = vec![cap];
+                            let o = edrv.run(&h);
+                            if !o.completed || o.out != want {
+                                return Some(format!("is_ascii_compatible() = true but ASCII characters around U+{:04X} do not encode to themselves: text [{}] through a {}-byte buffer gives {}, the Standard {}", x, fw::hex32(&text), cap, fw::hex(&o.out), fw::hex(&want)));
+                            }
+                        }
+                    }
+                }
+            }
+        }
+    }
     // ---- can_encode_everything: every scalar must come out as itself also from UTF-16 with a
     // destination of exactly the queried worst case (no silent substitution)
     if enc.can_encode_everything() && any_unmappable.is_none() {
@@ -259,8 +319,8 @@ pub fn run(ctx: &Ctx) -> i32 {
         }
     }
     st.merge(s2);
-    st.fully_exhaustive = true;
     st.exhaustive.push("40 encodings x all byte strings of length <= 2 (decoder) x all scalar values (encoder); all 40 x 40 pairs for == / Hash".into());
+    st.exhaustive.push("ASCII-compatible / single-byte encodings: ASCII run of 0..=70 bytes + each atom + 17 ASCII bytes (digits, trail-range letters, NUL, DEL) decoded through 4/5/7/16/17/64-byte UTF-8 and 2/3/7/16/17/64-unit UTF-16 buffers; ASCII run + each alphabet character + the same ASCII tail encoded from UTF-8 and UTF-16 through 14/15/17/24/64-byte buffers - compared with the Standard".into());
     fw::finish(ctx, st, RULE, &["'every byte string' for is_single_byte is judged on all strings of length <= 2 (a stateless or two-byte-prefix decoder cannot differ beyond that; ISO-2022-JP, UTF-8, gb18030 are already separated by a witness of length <= 2)"], t0.elapsed().as_secs_f64()).exit
 }
 
